@@ -879,6 +879,8 @@ class FileParser(object):
                     if instance == occurrence:
                         break
                 row -= 1
+            # row counts back from the end of the file; make it relative to the anchor
+            row += len(self._data) - self._current_row
 
         j = self._current_row + row + rowoffset
         line = self._data[j]
